@@ -22,6 +22,9 @@ mod generated_module;
 pub mod normalization;
 mod query;
 mod type_qualifiers;
+/// Verification hooks (only with `--cfg graphql_client_verif`).
+#[cfg(graphql_client_verif)]
+pub mod verif;
 
 #[cfg(test)]
 mod tests;
@@ -42,7 +45,10 @@ impl Display for GeneralError {
 impl std::error::Error for GeneralError {}
 
 type BoxError = Box<dyn std::error::Error + Send + Sync + 'static>;
+#[cfg(not(graphql_client_verif))]
 type CacheMap<T> = std::sync::Mutex<BTreeMap<std::path::PathBuf, T>>;
+#[cfg(graphql_client_verif)]
+type CacheMap<T> = verif::Mutex<BTreeMap<std::path::PathBuf, T>>;
 type QueryDocument = graphql_parser::query::Document<'static, String>;
 
 lazy_static! {
